@@ -539,6 +539,11 @@ func genC25(g *Gen) {
 		if g.Intn(5) == 0 {
 			index = g.Pick(0, 1, 2, slots-1, slots)
 		}
+		if g.Intn(25) == 0 { // a key whose timeframe the catalog does not know: GetTimeFrame fails
+			g.Emit(fmt.Sprintf("wtset %s %d %d %d %d %s %d", []string{"7Foo", "Min", "x"}[g.Intn(3)], year, g.Intn(2), index, ncols+4,
+				hx(g.Bytes(ncols+4)), ncols), "wtset:bad_timeframe")
+			continue
+		}
 		switch c := g.Intn(10); {
 		case c <= 3:
 			g.Emit(fmt.Sprintf("wtset %s %d 0 %d 0 %s %d", tf.name, year, index, hx(g.Bytes(ncols)), ncols), "wtset:fixed")
